@@ -536,6 +536,8 @@ func init() {
 		ruleHeaderBeforeRemove(r, "header-before-remove")
 		ruleFirstFileGuard(r)
 		ruleMergeFraming(r)
+		ruleSpanPair(r)
+		rulePosCodec(r)
 		ruleRescanAppliesAll(r)
 		ruleGoHandshake(r)
 	},
